@@ -572,6 +572,96 @@ func c07EntryPoints() (msg string) {
 			return fmt.Sprintf("%d values for 1 variable: second Next returned (%v,true)", len(vals), v)
 		}
 	}
+	return c07EntryHistories()
+}
+
+// c07EntryHistories: what an entry point answers does not depend on what was asked before. Every history of up to
+// four runs of one Code (and of one Query through Query.Run), each run given 0, 1, 2 or 3 values for its one variable
+// or a context that is already cancelled, with the iterators drained as they are made, after all were made, or in
+// reverse order: a mismatch or a cancelled context is one error value and then the end, the matching run is its value.
+func c07EntryHistories() string {
+	q, _ := gojq.Parse("$a")
+	cancelled, cancel := context.WithCancel(context.Background())
+	cancel()
+	const nOps = 5
+	expect := func(it gojq.Iter, op int) string {
+		v, ok := it.Next()
+		switch {
+		case op == 1:
+			if !ok || v != any(10) {
+				return fmt.Sprintf("first Next returned (%v,%v), want (10,true)", v, ok)
+			}
+		case op == 4:
+			if !ok || v != any(context.Canceled) {
+				return fmt.Sprintf("first Next returned (%v,%v), want the context's error", v, ok)
+			}
+		default:
+			if _, isErr := v.(error); !ok || !isErr {
+				return fmt.Sprintf("first Next returned (%v,%v), want an error value", v, ok)
+			}
+		}
+		for i := 0; i < 2; i++ {
+			if v, ok := it.Next(); ok {
+				return fmt.Sprintf("Next %d returned (%v,true), want the end", i+2, v)
+			}
+		}
+		return ""
+	}
+	for _, viaQuery := range []bool{false, true} {
+		for l := 1; l <= 4; l++ {
+			total := 1
+			for i := 0; i < l; i++ {
+				total *= nOps
+			}
+			for h := 0; h < total; h++ {
+				ops := make([]int, l)
+				for i, x := 0, h; i < l; i, x = i+1, x/nOps {
+					ops[i] = x % nOps
+				}
+				for order := 0; order < 3; order++ {
+					code, err := gojq.Compile(q, gojq.WithVariables([]string{"$a"}))
+					if err != nil {
+						return "compile with variables failed: " + err.Error()
+					}
+					start := func(op int) gojq.Iter {
+						ctx, vals := context.Background(), []any{10, 20, 30}[:op%4]
+						if op == 4 {
+							ctx, vals = cancelled, []any{10}
+						}
+						if viaQuery {
+							// Query.Run takes no values: $a is a compile error, delivered as the one error value
+							return q.RunWithContext(ctx, nil)
+						}
+						return code.RunWithContext(ctx, nil, vals...)
+					}
+					want := func(op int) int {
+						if viaQuery {
+							return 0 // the compile error, whatever the context
+						}
+						return op
+					}
+					its := make([]gojq.Iter, l)
+					for i, op := range ops {
+						its[i] = start(op)
+						if order == 0 {
+							if m := expect(its[i], want(op)); m != "" {
+								return fmt.Sprintf("history %v (viaQuery=%v), run %d drained at once: %s", ops, viaQuery, i, m)
+							}
+						}
+					}
+					for k := 0; k < l && order > 0; k++ {
+						i := k
+						if order == 2 {
+							i = l - 1 - k
+						}
+						if m := expect(its[i], want(ops[i])); m != "" {
+							return fmt.Sprintf("history %v (viaQuery=%v, order %d), run %d: %s", ops, viaQuery, order, i, m)
+						}
+					}
+				}
+			}
+		}
+	}
 	return ""
 }
 
